@@ -37,11 +37,22 @@ impl Hist {
     }
     pub fn build(&self) -> Lapper<u64, u64> {
         let mut l = Lapper::new(self.init.iter().map(|(s, e, v)| Iv { start: *s, stop: *e, val: *v }).collect());
-        for o in &self.ops {
+        for (i, o) in self.ops.iter().enumerate() {
             match o {
                 Op::Insert(s, e, v) => l.insert(Iv { start: *s, stop: *e, val: *v }),
                 Op::Merge => l.merge_overlaps(),
                 Op::SetCov => { l.set_cov(); }
+            }
+            // read-only calls in the middle of a history (results discarded): they take &self and must not
+            // influence any later answer
+            if (i + self.init.len()) % 2 == 0 {
+                let (qs, qe) = match o { Op::Insert(s, e, _) => (*s, e.saturating_add(1)), _ => (0, 1) };
+                let _ = l.find(qs, qe).count();
+                if !l.intervals.iter().any(|x| x.start > x.stop) { let _ = l.count(qs, qe); }
+                let mut cur = 0usize;
+                let _ = l.seek(qs, qe, &mut cur).count();
+                let _ = l.iter().count();
+                if !l.intervals.iter().any(|x| x.start >= x.stop) { let _ = l.cov(); }
             }
         }
         l
@@ -59,11 +70,12 @@ impl Hist {
         for o in self.ops.iter_mut() { if let Op::Insert(s, e, _) = o { *s += d; *e += d; } }
     }
     pub fn max_stop(&self) -> u64 { self.all_intervals().iter().map(|x| x.1).max().unwrap_or(0) }
-    /// move the whole history so that its greatest stop is `u64::MAX - 1 - slack`: start + max_len
-    /// then exceeds the coordinate type for every interval shorter than the longest one
+    /// move the whole history so that its greatest stop is `u64::MAX - slack` (slack 0: the last interval
+    /// ends at u64::MAX itself): start + max_len then exceeds the coordinate type for every interval shorter
+    /// than the longest one, and position + 1 does at the end of the last interval
     pub fn lift_to_top(&mut self, slack: u64) {
         let m = self.max_stop();
-        self.shift_up(u64::MAX - 1 - slack - m);
+        self.shift_up(u64::MAX - slack - m);
     }
     pub fn min_start(&self) -> u64 { self.all_intervals().iter().map(|x| x.0).min().unwrap_or(0) }
 }
